@@ -35,7 +35,7 @@ TIME_CAP = {"quick": 80, "thorough": 1500}
 
 def gen_cases(ctx):
     rng = ctx.grng("c15")
-    n = ctx.budget(6000, 90000)
+    n = ctx.budget(22000, 200000)
     for i in range(n):
         src, dst = syncgen.rand_side(rng), syncgen.rand_side(rng)
         for k in list(src["jobs"])[:1]:
